@@ -202,7 +202,13 @@ let oracle line =
           let ops = if tr = "-" then [] else
               List.map (fun t -> if t.[0] = 'b' then OBind (pos_of_idx (int_of_string (rest t)), true, Z0, false, [])
                          else parse_op t) (String.split_on_char ',' tr) in
-          if oracle_W ops completed leak then "OK" else "BAD well-formed client, implementation: " ^ obs)
+          (* cross-check of the two formulations of the client's side: what the heap-independent
+             discipline accepts must satisfy the hypothesis of the proved theorems *)
+          let script = List.map parse_op (List.tl (split_ws case)) in
+          let evfree = List.for_all event_free_op script in
+          if evfree && wf_client script && not (client_okb fuel script (heap0 fixed))
+          then "BAD discipline accepts a history outside the theorems' hypothesis"
+          else if oracle_W ops completed leak then "OK" else "BAD well-formed client, implementation: " ^ obs)
      | "O" :: toks ->
        let ops = List.map parse_oop toks in
        let ops = if completed then ops else
